@@ -7,6 +7,49 @@ use vcheck::{run_property, Ctx, Property, Tier, Value};
 
 struct C01;
 
+/// Bucket boundaries far from zero (simulated time beyond 2^24 s, where 1 ns is below the
+/// resolution of an f64 second count): one queue walks over `count` consecutive boundaries
+/// b = K*t; around each, events at b-1ns, b+1ns and b+t/2 are added (in that order of
+/// insertion: latest first) and must come back in time order with their own times.
+fn far_boundaries(n: usize, t_ns: u64, count: u64) -> Result<u64, String> {
+    use des_cqueue::CQueue;
+    use std::time::Duration;
+    let dur = |ns: u128| Duration::new((ns / 1_000_000_000) as u64, (ns % 1_000_000_000) as u32);
+    vcheck::quiet_catch(move || -> Result<u64, String> {
+        let mut q: CQueue<u32> = CQueue::new(n, Duration::from_nanos(t_ns));
+        let t = u128::from(t_ns);
+        let first = ((1u128 << 24) * 1_000_000_000).div_ceil(t) + 1;
+        let mut id = 0u32;
+        for k in first..first + u128::from(count) {
+            let b = k * t;
+            let times = [b + t / 2, b + 1, b - 1];
+            for &x in &times {
+                q.add(dur(x), id);
+                id += 1;
+            }
+            let mut exp = [(id - 1, b - 1), (id - 2, b + 1), (id - 3, b + t / 2)].to_vec();
+            exp.sort_by_key(|e| e.1);
+            for (eid, et) in exp {
+                if q.is_empty() {
+                    return Err(format!("(n={n}, t={t_ns}ns) boundary {k}: queue empty although event {eid} at {et}ns is pending"));
+                }
+                let (gid, gt) = q.fetch_next();
+                if gid != eid || gt.as_nanos() != et {
+                    return Err(format!(
+                        "(n={n}, t={t_ns}ns) around bucket boundary {k}*t = {b}ns: fetched event {gid} at {}ns, the earliest pending event is {eid} at {et}ns",
+                        gt.as_nanos()
+                    ));
+                }
+            }
+        }
+        if !q.is_empty() {
+            return Err(format!("(n={n}, t={t_ns}ns): {} events left after everything was fetched", q.len()));
+        }
+        Ok(u64::from(id))
+    })
+    .map_err(|m| format!("panicked: {m}"))?
+}
+
 pub fn configs(tier: Tier) -> Vec<(usize, u64, usize)> {
     // (n buckets, bucket width ns, depth)
     match tier {
@@ -38,7 +81,7 @@ impl Property for C01 {
             "explicit-state BFS over all histories of Add(delta)/Fetch/Cancel(j) on the real CQueue<u32>, delta in {{0,1,t-1,t,t+1,Y-1,Y,Y+1,3Y+2}}, \
              configurations (n,t,depth) = {:?}; every transition re-executes the complete history on a fresh queue and compares every step with a reference list \
              (len, fetched id/time, minimality, dead-cancel is a no-op), the queue is additionally drained through fetch_next after every history (not only the first one reaching a state); \
-             states are deduplicated per worker by a canonical form of the implementation snapshot (ids renamed to ranks) plus the reference's pending list (merged states are not expanded again); plus scripted histories that wrap the 64-slot ring buffer of the zero-delay bucket before cancelling in it; independently of that key, 4 configurations are explored to depth 5 (thorough 6) without merging any states; \
+             states are deduplicated per worker by a canonical form of the implementation snapshot (ids renamed to ranks) plus the reference's pending list (merged states are not expanded again); plus scripted histories that wrap the 64-slot ring buffer of the zero-delay bucket before cancelling in it; plus, on 6 configurations with bucket widths from 0.1 s to 99.9 s, one queue each that walks over 3000 (thorough 60000) consecutive bucket boundaries beyond 2^24 s of simulated time with events 1 ns before, 1 ns after and half a bucket after each boundary; independently of that key, 4 configurations are explored to depth 5 (thorough 6) without merging any states; \
              distinct_nontrivial = distinct canonical states with at least one pending event (per worker; work below depth 2 is partitioned over workers, \
              so a state reachable under two partitions is counted by both)",
             configs(tier)
@@ -62,6 +105,7 @@ impl Property for C01 {
             "cancel_dead_handle",
             "exploration_without_state_merging",
             "cancel_in_a_wrapped_zero_delay_ring",
+            "bucket_boundaries_beyond_2^24_seconds",
         ]
     }
     fn crash_is_violation(&self) -> bool {
@@ -94,6 +138,24 @@ impl Property for C01 {
                 }
             }
         }
+        // bucket boundaries beyond 2^24 s of simulated time
+        let count = ctx.tier.pick(3000u64, 60_000);
+        for (i, (n, t)) in [(8usize, 99_900_000_000u64), (4, 1_100_000_000), (16, 100_000_000), (3, 4_900_000_000), (5, 300_000_000), (2, 1_000_000_000)].iter().enumerate() {
+            if !ctx.mine_key(i as u64) {
+                continue;
+            }
+            let case = vcheck::json!({"far_boundaries": {"n": n, "t_ns": t, "count": count}});
+            ctx.begin(|| case.clone());
+            ctx.out.evaluations += 1;
+            ctx.hit("bucket_boundaries_beyond_2^24_seconds");
+            match far_boundaries(*n, *t, count) {
+                Ok(events) => {
+                    ctx.out.transitions += 2 * events;
+                    ctx.out.traces += 1;
+                }
+                Err(d) => ctx.violation("violation", || case.clone(), d),
+            }
+        }
         // every history up to a smaller depth without merging states: independent of what the
         // canonical key can see of the implementation
         for (n, t) in [(1usize, 1u64), (2, 3), (4, 5), (3, 2)] {
@@ -118,6 +180,9 @@ impl Property for C01 {
         }
     }
     fn replay(&self, case: &Value) -> Result<(), String> {
+        if let Some(f) = case.get("far_boundaries") {
+            return far_boundaries(f["n"].as_u64().unwrap() as usize, f["t_ns"].as_u64().unwrap(), f["count"].as_u64().unwrap()).map(|_| ());
+        }
         cqlab::replay_case(case)
     }
 }
